@@ -25,9 +25,12 @@ REPO = Path(os.environ.get("VERIF_REPO", "/repo"))
 PY = "/venv/bin/python"
 
 GATE_RE = re.compile(
-    r"\b(Admitted|admit|Axiom|Parameter|Conjecture|Unset Guard|bypass_check|type-in-type|"
-    r"Admit Obligations|impredicative-set|Unset Positivity|Unset Universe)\b"
+    r"\b(Admitted|admit|Axioms?|Parameters?|Conjectures?|Unset Guard|bypass_check|type-in-type|"
+    r"Admit Obligations|impredicative-set|Unset Positivity|Unset Universe|Guard Checking|Positivity Checking|"
+    r"Universe Checking)\b"
 )
+# declarations that are assumptions unless they sit inside a (closed) Section
+SECTION_LOCAL_RE = re.compile(r"^\s*(?:Local\s+|Global\s+)?(Variables?|Hypothes[ie]s|Context)\b")
 
 
 def seed() -> int:
@@ -113,9 +116,20 @@ def coq_gate(files: list[str]) -> list[str]:
         while prev != text:
             prev = text
             text = re.sub(r"\(\*[^*(]*(?:\*(?!\))[^*(]*|\((?!\*)[^*(]*)*\*\)", " ", text)
+        sections: list[str] = []
         for i, line in enumerate(text.splitlines(), 1):
             if GATE_RE.search(line):
                 bad.append(f"{rel}:{i}: {line.strip()}")
+            m = re.match(r"^\s*Section\s+(\w+)\s*\.", line)
+            if m:
+                sections.append(m.group(1))
+            m = re.match(r"^\s*End\s+(\w+)\s*\.", line)
+            if m and sections and sections[-1] == m.group(1):
+                sections.pop()
+            if SECTION_LOCAL_RE.match(line) and not sections:
+                bad.append(f"{rel}:{i}: outside a Section: {line.strip()}")
+        if sections:
+            bad.append(f"{rel}: Section {sections[-1]} is never closed")
     return bad
 
 
@@ -354,6 +368,14 @@ def proof_stage(rep: Report, prop_file: str, extra_gate: list[str] | None = None
         rep.coverage["discharged"] = n
         tb = print_assumptions(prop_file)
         rep.coverage["print_assumptions"] = tb
+        open_ = [x for x in tb if x != "Closed under the global context"]
+        if open_ or not tb:
+            # every property theorem must be closed under the global context (no axiom of any kind is used today);
+            # anything else is a broken proof obligation
+            rep.coverage["proof_failure"] = {"where": "Print Assumptions: " + (open_[0] if open_ else "no output"),
+                                             "gate": [], "log_tail": "; ".join(open_[:5])}
+            rep.coverage["discharged"] = 0
+            return False
         if rep.tier == "thorough":
             # independent re-check of the compiled cone and its axioms
             mod = "AV." + prop_file[:-2].replace("/", ".")
